@@ -78,7 +78,7 @@ class Batch(object):
 
 
 class Case(object):
-    __slots__ = ('mi', 'mod', 'text', 'tname', 't', 'v', 'numeric', 'gen')
+    __slots__ = ('mi', 'mod', 'text', 'tname', 't', 'v', 'numeric', 'gen', 'corner')
 
 
 def gen_cases(ctx, n_modules, per_type, opts=None, codec='der'):
@@ -110,6 +110,7 @@ def gen_cases(ctx, n_modules, per_type, opts=None, codec='der'):
                 c.mi, c.mod, c.text, c.tname, c.t, c.gen = mi, mod, text, tname, t, g
                 c.v = g.gen_value(t)
                 c.numeric = rng.random() < .25
+                c.corner = False
                 cases.append(c)
     # the hand-made corner modules
     for mod, vals in cb.corner_modules():
@@ -129,11 +130,13 @@ def gen_cases(ctx, n_modules, per_type, opts=None, codec='der'):
         mods.append((mod, text))
         ctx.count('gen:corner-modules')
         tmap = dict(mod['types'])
+        has_enum = 'ENUMERATED' in text
         for tname, v in vals:
-            for numeric in (False, True):
+            for numeric in ((False, True) if has_enum else (False,)):
                 c = Case()
                 c.mi, c.mod, c.text, c.tname, c.t, c.gen = mi, mod, text, tname, tmap[tname], g
                 c.v, c.numeric = v, numeric
+                c.corner = True
                 cases.append(c)
     return mods, cases
 
@@ -286,7 +289,7 @@ def corr_decode(ctx, batch, cases, enc, n_mut, codec='der', cmod=cd, label='DER'
         inputs = [('valid', r[1])]
         if rng.random() < .3:
             inputs.append(('tail', r[1] + bytes(rng.randrange(256) for _ in range(rng.choice([1, 2, 5])))))
-        for _ in range(n_mut):
+        for _ in range(n_mut if len(r[1]) < 5000 else 0):
             inputs.append(mutate(rng, r[1]))
         add_decode_checks(ctx, batch, c, inputs, codec, cmod, label)
 
@@ -474,9 +477,9 @@ def run(ctx):
         common.proof_broken(ctx)
 
 
-OPEN = ['der_roundtrip for the DER decoder classes (Ber/DerAccept.v; der_ber_roundtrip - the BER decoder reads DER output back - is proved)',
-        'der_reencode',
-        'scope_enc is fuel-indexed: a recursive type whose recursive part has DEFAULT components is outside (counted in scope:*)']
+OPEN = ['der_reencode (der_encode (norm v) = der_encode v)',
+        'scope_enc.default_ok and compiles_der are fuel-indexed to the bottom: recursive types with DEFAULT components in the '
+        'recursive part (resp. all recursive types for der_roundtrip) are outside those hypotheses (counted in scope:*)']
 
 
 def known_findings(ctx):
